@@ -15,6 +15,16 @@ where
 	fn deserialize(read: &mut impl io::Read) -> FResult<Self>;
 }
 
+/// Upper bound on the number of elements that are pre-allocated from a
+/// length field read from untrusted input. Longer collections still load
+/// (they grow as elements arrive), but a corrupted length can no longer
+/// request an absurd allocation up front.
+const MAX_PREALLOC: usize = 1024;
+
+pub(crate) fn prealloc(len: usize) -> usize {
+	len.min(MAX_PREALLOC)
+}
+
 macro_rules! impl_serde {
 	($($typ: ty)+) => {
 		$(
@@ -62,7 +72,7 @@ impl Serialize for &str {
 impl Deserialize for String {
 	fn deserialize(read: &mut impl io::Read) -> FResult<Self> {
 		let len = usize::deserialize(read)?;
-		let mut buf = Vec::with_capacity(len);
+		let mut buf = Vec::with_capacity(prealloc(len));
 		for _ in 0..len {
 			buf.push(u8::deserialize(read)?);
 		}
